@@ -105,6 +105,9 @@ def finish(m, prop, tier, seed, results, wall, verbose=False):
     n_unsat = sum(1 for r in recs if r["verdict"] == "unsat")
     viol, knownhits, incon, errs = [], {}, [], []
     os.makedirs(os.path.join(EVID, "replays"), exist_ok=True)
+    for fn in os.listdir(os.path.join(EVID, "replays")):
+        if fn.startswith(prop + "-"):
+            os.remove(os.path.join(EVID, "replays", fn))
     for res in results:
         for r in res["records"]:
             v = r["verdict"]
